@@ -13,7 +13,7 @@ JNext == \/ /\ blk = 0 /\ blk' \in 1..NB /\ i' = 0 /\ UNCHANGED el
 JSpec == JInit /\ [][JNext]_<<i, blk, el>>
 o == Obs[i]
 
-SameV == CmdVerdict(o.cmd, o.orig, o.redact)
+SameV == CmdVerdict(o.cmd, o.orig, o.mode)     \* mode: "exact" | "redact" (sanitisation on) | "lax" (original delivered by another client)
 Tk == Tokens(o.cmd)
 Rq == Interp(Tk.words)
 Definite == Tk.ok /\ ~Tk.op /\ ~Tk.glob /\ Rq.ok /\ ~Rq.unknown
